@@ -3,7 +3,9 @@
 // "*ut.Pt", "[]ut.MyStr") although they are different types.
 package ut
 
+// Pt has the same name as ut.Pt and a different layout.
 type Pt struct {
+	A string
 	X int8
 	Y int64
 }
